@@ -419,7 +419,11 @@ func Run(in Input) (c *common.Case) {
 		dl := m.VerifDeviceList()
 		dts := make([]string, len(dl))
 		for i, d := range dl {
-			dts[i] = q.App("MkDev", q.Hx(d.StDev), q.Hx(d.Name), q.HxList(d.Roots))
+			srs := make([]string, len(d.Subroots))
+			for j, sr := range d.Subroots {
+				srs[j] = q.Pair(q.Hx(sr[0]), q.Hx(sr[1]))
+			}
+			dts[i] = q.App("MkDev", q.Hx(d.StDev), q.Hx(d.Name), q.HxList(d.Roots), q.List(srs))
 		}
 		qts := make([]string, len(queries))
 		qdesc := []interface{}{}
